@@ -1,13 +1,13 @@
 package govc
 
 import (
-	"strconv"
 	"bytes"
 	"context"
 	"fmt"
 	"os"
 	"os/exec"
 	"path/filepath"
+	"strconv"
 	"strings"
 	"sync"
 	"time"
@@ -21,7 +21,9 @@ type Solver struct {
 var Solvers = []Solver{
 	{"z3", func(f string, ms int) []string { return []string{"z3", fmt.Sprintf("-t:%d", ms), f} }},
 	{"z3-new", func(f string, ms int) []string { return []string{"z3-new", fmt.Sprintf("-t:%d", ms), f} }},
-	{"cvc5", func(f string, ms int) []string { return []string{"cvc5", fmt.Sprintf("--tlimit=%d", ms), "--lang=smt2", f} }},
+	{"cvc5", func(f string, ms int) []string {
+		return []string{"cvc5", fmt.Sprintf("--tlimit=%d", ms), "--lang=smt2", f}
+	}},
 }
 
 type SolveOpts struct {
